@@ -610,6 +610,8 @@ class HammingReward(Rewards):
 
         n_intersect = 0
 
+        #a single label is scored as the label set holding just that label
+        if isinstance(comparable,str) or not hasattr(comparable,'__iter__'): comparable = [comparable]
         for a in comparable: n_intersect += a in self._argmax
         n_union = len(argmax) + len(comparable) - n_intersect
 
